@@ -9,3 +9,6 @@ import NbioVerif.Properties.C17
 #print axioms ConnFull.c17_overflow_closes_writev
 #print axioms ConnFull.c17_overflow_only_if_write
 #print axioms ConnFull.c17_overflow_only_if_writev
+#print axioms ConnFull.c17_fits_accepted_sendfile
+#print axioms ConnFull.c17_full_budget_after_drain
+#print axioms ConnFull.c17_file_ranges_not_counted
